@@ -4,6 +4,7 @@ import (
 	"bytes"
 	"context"
 	"errors"
+	"fmt"
 	"io"
 	"net/http"
 	"net/url"
@@ -240,6 +241,12 @@ func VerifC19_APIError() {
 	var e error = errors.New(msg)
 	if status != 0 {
 		e = apierror.New(e, status)
+	}
+	if verif_Bool("wrappedByCaller") {
+		// handlers add context with %w before answering: the API error is then
+		// somewhere in the chain, not the outermost error
+		e = fmt.Errorf("lookup: %w", e)
+		msg = "lookup: " + msg
 	}
 	back := apierror.DecodeError(apierror.EncodeError(e))
 	verif_Reach("decoded")
